@@ -14,7 +14,7 @@ PROP = dict(
     engines=[dict(
         name="eager", classify=classify, extra=["--c19"],
         quick=dict(cases=4320, shards=4, profiles=["debug"]),
-        thorough=dict(cases=288000, shards=16, profiles=["debug", "release"]),
+        thorough=dict(cases=64000, shards=16, profiles=["debug", "release"]),
     )],
     rule="as C06 but with source-version changes in 40% of the rounds, re-import after 30% and own-version change after 8% of "
          "the calls; closures of compute_to/range/transform/transform2-4 log every index they are called with; 10% of the cases begin with results "
